@@ -356,6 +356,59 @@ static void e2eSession(vh::Rng& r, int integ) {
 }
 
 // ============================================================ mode ts
+class RepList : public ScheduledEventReporter {
+public:
+    std::vector<double> ts;
+    Real getNextEventTime(const State& s, bool incl) const override {
+        for (double t : ts) if (t > s.getTime() || (incl && t == s.getTime())) return t;
+        return Infinity;
+    }
+    void handleEvent(const State& s) const override { if (g_log) g_log->push_back({4, s.getTime()}); }
+};
+// directed scenario (C19 finding 1 seen through the TimeStepper): a scheduled REPORT time strictly inside the event window.
+// pass A finds the window with a regular report grid; pass B adds one report at mid-window.
+static void tsDirected(vh::Rng& r) {
+    const double k = r.range(0.5, 10.0), a = r.range(0.05, 0.4), dtr = r.range(0.002, 0.01);
+    const bool flip = r.coin();
+    double wl = 0, wh = 0; bool haveWin = false;
+    for (int pass = 0; pass < 2; ++pass) {
+        Built B; buildOsc(B, k);
+        std::vector<CallRec> log; g_log = &log;
+        WSpec w; w.kind = 0; w.a = a; w.b = 0; w.mask = 3; w.window = 0.1;
+        B.system.addEventHandler(new Witness(w, 0, flip));
+        RepList* rl = new RepList;
+        for (int i = 1; i * dtr < a + 0.05; ++i) rl->ts.push_back(i * dtr);
+        if (pass == 1) { rl->ts.push_back(wl + 0.5 * (wh - wl)); std::sort(rl->ts.begin(), rl->ts.end()); }
+        B.system.addEventReporter(rl);
+        State state = B.system.realizeTopology(); state.updQ()[0] = 1; state.updU()[0] = 0;
+        B.integ.reset(makeInteg(0, B.system, 0.01));
+        B.integ->setAccuracy(1e-3);
+        TimeStepper ts(B.system, *B.integ);
+        ts.setReportAllSignificantStates(pass == 0);
+        ts.initialize(state);
+        if (pass == 0) {
+            int guard = 0;
+            while (ts.getTime() < a + 0.04 && guard++ < 5000) {
+                if (ts.stepTo(a + 0.04) == Integrator::ReachedEventTrigger && !haveWin) { Vec2 win = B.integ->getEventWindow(); wl = win[0]; wh = win[1]; haveWin = true; }
+            }
+            g_log = nullptr;
+            if (!haveWin || !(wl < wl + 0.5 * (wh - wl) && wl + 0.5 * (wh - wl) < wh)) return;
+            continue;
+        }
+        ts.stepTo(a + 0.04);
+        g_log = nullptr;
+        const double tDone = ts.getTime();
+        vh::Line L = vh::I("ts"); L.s("RungeKuttaMerson").i(0).s(g_tag); L.emit();
+        vh::O("ts").i(1).emit();
+        vh::D(flip ? "class.ts.directed.handler_changes_state" : "class.ts.directed.handler_no_change");
+        double order = 0; for (size_t i = 1; i < log.size(); ++i) if (log[i - 1].t > log[i].t) order = 1;
+        std::vector<double> got, want; for (auto& c : log) if (c.kind == 4) got.push_back(c.t);
+        for (double t : rl->ts) if (t <= tDone) want.push_back(t);
+        vh::P("handlers_in_time_order", "TimeStepper.directed.report_in_window.order", order, 0);
+        vh::P("scheduled_reports_exactly_at_their_times", "TimeStepper.directed.report_in_window.report_exact", got == want ? 0.0 : 1.0, 0);
+    }
+}
+
 static void tsSession(vh::Rng& r, int integ) {
     Built B; buildOsc(B, r.range(0.5, 10.0));
     const double tEnd = r.range(1.0, 3.0);
@@ -507,7 +560,7 @@ static void runOne(const std::string& mode, unsigned long long seed, long idx) {
         vh::Rng sub(rng.next());
         if (i < idx) continue;
         g_tag = "seed " + (mode.empty() ? std::string("loc") : mode) + " " + std::to_string(seed) + " " + std::to_string(idx);
-        if (mode == "e2e") e2eSession(sub, (int)(i % 10)); else if (mode == "ts") tsSession(sub, (int)(i % 10)); else locSession(sub, (int)(i % 8));
+        if (mode == "e2e") e2eSession(sub, (int)(i % 10)); else if (mode == "ts") { if (i % 25 == 24) tsDirected(sub); else tsSession(sub, (int)(i % 10)); } else locSession(sub, (int)(i % 8));
     }
 }
 
@@ -533,7 +586,7 @@ int main(int argc, char** argv) {
         vh::Rng sub(rng.next());
         g_tag = "seed " + (a.mode.empty() ? std::string("loc") : a.mode) + " " + std::to_string(a.seed) + " " + std::to_string(i);
         if (a.mode == "e2e") e2eSession(sub, (int)(i % 10));
-        else if (a.mode == "ts") tsSession(sub, (int)(i % 10));
+        else if (a.mode == "ts") { if (i % 25 == 24) tsDirected(sub); else tsSession(sub, (int)(i % 10)); }
         else locSession(sub, (int)(i % 8));
     }
     return 0;
